@@ -639,11 +639,13 @@ def gen_line(rng, desc, now):
     # identifier
     mname = rng.choice(list(mods))
     accs = mods[mname]['accessibles']
-    aname = rng.choice(list(accs))
-    dinfo = accs[aname]['datainfo']
+    aname = rng.choice(list(accs)) if accs else 'value'        # a module may have no accessible at all
+    dinfo = accs[aname]['datainfo'] if accs else None
     r = rng.random()
     if r < 0.62:
         ident = f'{mname}:{aname}'
+        if not accs:
+            dinfo = None
     elif r < 0.8:
         ident = mname
         aname = 'target' if action == 'changed' else 'value'
